@@ -232,7 +232,14 @@ class PathV:
 
     def canon(self):
         """std::path compares by components, and `components()` drops every `.` except a leading one of a relative path"""
-        return tuple(c for i, c in enumerate(self.comps) if c != '.' or (i == 0 and not self.absolute))
+        return tuple(c for i, c in enumerate(self.comps) if c != '' and (c != '.' or (i == 0 and not self.absolute)))
+
+    def trimmed(self):
+        """components without what std ignores at the end of a path: trailing slashes and trailing `.` segments"""
+        c = list(self.comps)
+        while c and (c[-1] == '' or (c[-1] == '.' and (len(c) > 1 or self.absolute))):
+            c.pop()
+        return tuple(c)
 
     def __eq__(self, o):
         return isinstance(o, PathV) and self.absolute == o.absolute and self.canon() == o.canon()
